@@ -518,7 +518,13 @@ fn c07(a: &Args) -> Report {
     ign.name = "C07/seq/ignore-corrupted".into();
     ign.wcfg.ignore_corrupted = true;
     ign.depth = s.depth - 1;
-    let specs = if evidence::part_enabled("seq") { vec![s, ign] } else { vec![] };
+    // a blob file name prefix that itself contains dots and digits (file names are parsed from
+    // the right: <prefix>.<id>.blob)
+    let mut dotted = s.clone();
+    dotted.name = "C07/seq/dotted-prefix".into();
+    dotted.wcfg.prefix = "a.7.b";
+    dotted.depth = s.depth - 1;
+    let specs = if evidence::part_enabled("seq") { vec![s, ign, dotted] } else { vec![] };
     let results = run_specs(&specs, a, &no_known);
     let mut rep = seq_report("C07", a, "model_checking", results, SEQ_RULE);
     // the same monitors over every fault placement and over every crash state's recovery
@@ -775,12 +781,20 @@ fn c03(a: &Args) -> Report {
     // ... with the data of every record validated whenever an index is regenerated at start-up
     alt.wcfg.validate_data = true;
     let r2 = crate::engines::restart::run(&alt, fine_depth - 1, a.threads);
-    r.stats.states += r2.stats.states;
-    r.stats.restarts += r2.stats.restarts;
-    r.stats.distinct_damaged_dirs += r2.stats.distinct_damaged_dirs;
-    r.stats.fine_states += r2.stats.fine_states;
-    r.stats.samples.extend(r2.stats.samples);
-    r.violations.extend(r2.violations);
+    // a blob file name prefix that contains dots and digits (names are `<prefix>.<id>.<ext>`)
+    let mut dotted = spec.clone();
+    dotted.name = "C03/restart/dotted-prefix".into();
+    dotted.depth = spec.depth - 2;
+    dotted.wcfg.prefix = "a.7.b";
+    let r3 = crate::engines::restart::run(&dotted, 0, a.threads);
+    for r2 in [r2, r3] {
+        r.stats.states += r2.stats.states;
+        r.stats.restarts += r2.stats.restarts;
+        r.stats.distinct_damaged_dirs += r2.stats.distinct_damaged_dirs;
+        r.stats.fine_states += r2.stats.fine_states;
+        r.stats.samples.extend(r2.stats.samples);
+        r.violations.extend(r2.violations);
+    }
     let mut violations = Vec::new();
     let mut machinery = Vec::new();
     for v in &r.violations {
